@@ -49,7 +49,15 @@ func sortedVals(v *View) []*ValView {
 // honest fills fee / entropy / signer for a message sent by actor a.
 func (w *World) honest(a *Actor, msg sdk.Msg, cp CurParams) *TxSpec {
 	s := &TxSpec{Msg: msg, Fee: cp.RequiredFee(msg.Type()), Entropy: w.nextEntropy(), SignedBy: a}
-	if w.R.Chance(20) {
+	if need := cp.RequiredFeeBig(msg.Type()); !need.IsInt64() || need.Int64() > 1<<55 {
+		// nobody can pay this: offer what a careless implementation might accept instead (the base fee, the product
+		// wrapped to 64 bits, small multiples)
+		wrapped := int64(uint64(BaseFee(msg.Type())) * uint64(new(big.Int).Quo(need, big.NewInt(BaseFee(msg.Type()))).Uint64()))
+		s.Fee = w.R.PickI64(BaseFee(msg.Type()), wrapped, wrapped+1, 10*BaseFee(msg.Type()), 1000000)
+		if s.Fee <= 0 {
+			s.Fee = BaseFee(msg.Type())
+		}
+	} else if w.R.Chance(20) {
 		s.Fee += w.R.Int63n(5000)
 	}
 	// key supplied in the signature, or looked up from state when the account has one stored
@@ -300,6 +308,11 @@ func (w *World) ParamValue(key string, wellFormed bool) []byte {
 		fm := authTypes.FeeMultipliers{Default: r.PickI64(1, 1, 2, 3)}
 		if r.Bool() {
 			fm.FeeMultis = []authTypes.FeeMultiplier{{Key: []string{"send", "stake_validator", "unjail", "change_param"}[r.Intn(4)], Multiplier: r.PickI64(1, 2, 5)}}
+			if w.P.HugeFeeMultipliers && r.Chance(40) {
+				// a multiplier whose product with the base fee does not fit 64 bits (only for one message type: the rest
+				// of the chain keeps working); nobody can pay such a fee
+				fm.FeeMultis = []authTypes.FeeMultiplier{{Key: []string{"send", "unjail"}[r.Intn(2)], Multiplier: r.PickI64(1844674407370956, 922337203685478, 9223372036854775807, 1<<62)}}
+			}
 		}
 		return jsonOf(fm)
 	case "pos/UnstakingTime":
@@ -355,6 +368,9 @@ func (w *World) buildGovParam(v *View, cp CurParams) (*TxSpec, string) {
 	label := "govparam"
 	if w.P.MinStakeRaises && w.R.Chance(35) {
 		key = "pos/StakeMinimum"
+	}
+	if w.P.HugeFeeMultipliers && w.R.Chance(35) {
+		key = "auth/FeeMultipliers"
 	}
 	if lc := w.lastACL; lc != nil && lc.h == w.Env.H+1 && w.R.Chance(60) && lc.key != "gov/acl" {
 		// the ownership of this key was (tried to be) handed over earlier in this very block: the former and the new
